@@ -7,9 +7,10 @@
 set -u
 MODE=$1; D=$(readlink -f "$2"); shift 2
 export GOFLAGS=-mod=mod GOPROXY=off GOSUMDB=off GOTOOLCHAIN=local
-M=/tmp/vseed-$$
+# (a fixed place per lane of seeded_all.sh: the build cache then serves all changes of a lane; otherwise one per process)
+M=/tmp/vseed-${VSEED_LANE:-$$}
 git -C /repo worktree add -q --detach $M HEAD || exit 3
-trap 'git -C /repo worktree remove --force $M >/dev/null 2>&1; rm -f /tmp/vseed-$$.applied' EXIT
+trap 'git -C /repo worktree remove --force $M >/dev/null 2>&1; rm -f /tmp/vseed-$$.applied /tmp/vseed-$$.log' EXIT
 if git -C $M apply "$D/patch.diff" 2>/dev/null; then
   :
 elif [ -f "$D/patch.rebased.diff" ] && git -C $M apply "$D/patch.rebased.diff" 2>/dev/null; then
